@@ -202,6 +202,171 @@ fn trace_findings(obs: &Obs, run: Option<&mut Run>, key: u64) -> Vec<Finding> {
     f
 }
 
+/// C12: str-mode lexer vs its bytes-mode twin on the same valid UTF-8 input.
+fn twin_findings(s: &dyn Subject, input: &[u8], a: &Obs, run: Option<&mut Run>, key: u64) -> Vec<Finding> {
+    let mut f = Vec::new();
+    let b = lex_catch(s, 1, input, Mode::default());
+    if let Some(p) = b.anomalies.iter().find(|x| x.starts_with("panic")) {
+        f.push(fnd("C12", 0, format!("bytes-mode twin {p}")));
+        return f;
+    }
+    let oks = |o: &Obs| -> Vec<Item> { o.items.iter().copied().filter(|i| i.kind.is_some()).collect() };
+    if oks(a) != oks(&b) {
+        f.push(fnd("C12", 0, format!("Ok tokens differ between str mode {:?} and utf8 = false {:?}", oks(a), oks(&b))));
+        return f;
+    }
+    let errbytes = |o: &Obs| -> Vec<bool> {
+        let mut v = vec![false; input.len()];
+        for i in o.items.iter().filter(|i| i.kind.is_none()) {
+            for x in i.start..i.end.min(input.len()) {
+                v[x] = true;
+            }
+        }
+        v
+    };
+    let (ea, eb) = (errbytes(a), errbytes(&b));
+    if ea != eb {
+        let at = ea.iter().zip(eb.iter()).position(|(x, y)| x != y).unwrap_or(0);
+        f.push(fnd("C12", at, format!("bytes covered by errors differ at offset {at}: str mode items {:?}, utf8 = false items {:?}", a.items, b.items)));
+    }
+    if let Some(run) = run {
+        let near = a.items.iter().filter(|i| i.kind.is_none()).any(|i| (i.start..i.end.min(input.len())).any(|x| input[x] >= 0x80) || (i.end < input.len() && input[i.end] >= 0x80) || (i.start > 0 && input[i.start - 1] >= 0x80));
+        if near {
+            run.nontrivial(key);
+        }
+    }
+    f
+}
+
+/// C13: model of the callback protocol driven by the callback-free twin T0.
+fn callback_findings(s: &dyn Subject, sd: &SubjectDef, input: &[u8], obs: &Obs, run: Option<&mut Run>, key: u64) -> Vec<Finding> {
+    use model::set::{bump_bytes, cb_value, decide, ret_is_token, ret_options};
+    let def = &sd.def;
+    let leaves = def.leaves();
+    let nskips = def.skips.len();
+    let first_unit = (0..def.variants.len()).find(|&vi| !sd.has_value.get(nskips + vi).copied().unwrap_or(false));
+    let len = input.len();
+    let mut pos = 0usize;
+    let mut items: Vec<Item> = Vec::new();
+    let mut vals: Vec<u64> = Vec::new();
+    let mut codes: Vec<u64> = Vec::new();
+    let mut cbs: Vec<(u32, usize, usize, u64, usize)> = Vec::new();
+    let mut errs: Vec<(usize, usize)> = Vec::new();
+    let mut flags = (false, false, false);
+    let mut guard = 0;
+    let mut last_was_skip = false;
+    let errcode = |errs: &mut Vec<(usize, usize)>, a: usize, b: usize| -> u64 {
+        if sd.error_cb {
+            errs.push((a, b));
+            2_000_000 + (a as u64) * 1000 + b as u64
+        } else {
+            0
+        }
+    };
+    while pos < len && guard < 2 * len + 4 {
+        guard += 1;
+        let o = lex_catch(s, 1, &input[pos..], Mode { max_items: 1, ..Mode::default() });
+        let Some(first) = o.items.first().copied() else { break };
+        if last_was_skip {
+            flags.2 = true;
+        }
+        last_was_skip = false;
+        match first.kind {
+            None => {
+                let (a, b) = (pos + first.start, pos + first.end);
+                let c = errcode(&mut errs, a, b);
+                items.push(Item { kind: None, start: a, end: b });
+                codes.push(c);
+                pos = b;
+            }
+            Some(leaf) => {
+                let (p, variant) = leaves[leaf];
+                let start = pos + first.start;
+                let mut end = pos + first.end;
+                let slice = &input[start..end];
+                let outcome = match &p.callback {
+                    None => {
+                        if variant.is_none() {
+                            1
+                        } else {
+                            0
+                        }
+                    }
+                    Some(cb) => {
+                        let n = bump_bytes(&input[end..], cb.bump, def.utf8);
+                        cbs.push((leaf as u32, start, end, fnv(slice), n));
+                        if n > 0 {
+                            flags.1 = true;
+                        }
+                        end += n;
+                        let opts = ret_options(cb.ret);
+                        opts[(decide(cb.salt, slice) % opts.len() as u64) as usize]
+                    }
+                };
+                if outcome != 0 {
+                    flags.0 = true;
+                }
+                match outcome {
+                    0 => {
+                        let vi = match (&p.callback, variant) {
+                            (Some(cb), Some(own)) if ret_is_token(cb.ret) => first_unit.unwrap_or(own),
+                            (_, Some(own)) => own,
+                            (_, None) => usize::MAX,
+                        };
+                        let has_val = sd.has_value.get(leaf).copied().unwrap_or(false) && !p.callback.as_ref().map(|c| ret_is_token(c.ret)).unwrap_or(false);
+                        items.push(Item { kind: Some(vi), start, end });
+                        vals.push(if has_val { cb_value(slice) } else { 0 });
+                    }
+                    1 => {
+                        last_was_skip = true;
+                    }
+                    2 => {
+                        let c = errcode(&mut errs, start, end);
+                        items.push(Item { kind: None, start, end });
+                        codes.push(c);
+                    }
+                    _ => {
+                        items.push(Item { kind: None, start, end });
+                        codes.push(1_000_000 + cb_value(slice));
+                    }
+                }
+                pos = end;
+            }
+        }
+    }
+    let mut f = Vec::new();
+    if obs.items != items {
+        f.push(fnd("C13", 0, format!("items {:?} differ from the model {:?} (documented callback table applied to the callback-free twin)", obs.items, items)));
+    } else if obs.vals != vals {
+        f.push(fnd("C13", 0, format!("payloads {:?} differ from the model {:?}", obs.vals, vals)));
+    } else if obs.err_codes != codes {
+        f.push(fnd("C13", 0, format!("error values {:?} differ from the model {:?} (0 default, 1e6+ converted callback error, 2e6+ error callback)", obs.err_codes, codes)));
+    } else if obs.cbs != cbs {
+        f.push(fnd("C13", 0, format!("callback invocations (pattern, span, slice hash, bumped) {:?} differ from the model {:?}", obs.cbs, cbs)));
+    } else if obs.errs != errs {
+        f.push(fnd("C13", 0, format!("error callback invocations {:?} differ from the model {:?}", obs.errs, errs)));
+    }
+    // T1: always-Skip callbacks replaced by skip patterns give the identical stream
+    if f.is_empty() && leaves.iter().any(|(p, v)| v.is_some() && p.kind == model::spec::PatKind::Regex && p.callback.as_ref().map(|c| c.ret == 3 && c.bump == 0).unwrap_or(false)) {
+        let o1 = lex_catch(s, 2, input, Mode::default());
+        if o1.items != obs.items || o1.err_codes != obs.err_codes || o1.vals != obs.vals {
+            f.push(fnd("C13", 0, format!("replacing always-Skip callbacks by skip patterns changes the stream: {:?} vs {:?}", o1.items, obs.items)));
+        }
+        flags.2 = true;
+    }
+    if let Some(run) = run {
+        if flags.0 || flags.1 || flags.2 {
+            run.nontrivial(key);
+        }
+        for (b, n) in [(flags.0, "inputs_with_non_emit_decision"), (flags.1, "inputs_with_bump"), (flags.2, "inputs_with_skip_then_restart")] {
+            if b {
+                run.count(n, 1);
+            }
+        }
+    }
+    f
+}
+
 /// All findings of one (subject, input) for `prop`.
 fn check_input(prop: &str, s: &dyn Subject, sd: &SubjectDef, p: &Prepared, input: &[u8], mut run: Option<&mut Run>, def_key: u64) -> Vec<Finding> {
     let utf8 = sd.def.utf8;
@@ -270,6 +435,14 @@ fn check_input(prop: &str, s: &dyn Subject, sd: &SubjectDef, p: &Prepared, input
             "C07" => {
                 f.extend(partial_findings(s, utf8, input, &obs, run.as_deref_mut(), key));
             }
+            "C12" => {
+                if utf8 {
+                    f.extend(twin_findings(s, input, &obs, run.as_deref_mut(), key));
+                }
+            }
+            "C13" => {
+                f.extend(callback_findings(s, sd, input, &obs, run.as_deref_mut(), key));
+            }
             "C20" => {
                 f.extend(trace_findings(&obs, run.as_deref_mut(), key));
             }
@@ -282,6 +455,7 @@ fn check_input(prop: &str, s: &dyn Subject, sd: &SubjectDef, p: &Prepared, input
 
 fn families_for(prop: &str) -> &'static [&'static str] {
     match prop {
+        "C13" => &["callbacks"],
         _ => &["core"],
     }
 }
@@ -295,6 +469,8 @@ fn rule_for(prop: &str) -> String {
         "C04" => "oracle = char-boundary predicate on every observable span, then slice()/remainder() equality; non-trivial = distinct (definition,input) with an item boundary adjacent to a multi-byte char",
         "C05" => "oracle = no panic / no sanitizer report, exactly sized heap inputs; non-trivial = distinct (definition,input) whose last item ends exactly at the end of the allocation",
         "C07" => "every split point of every input: partial items are a leading run of the one-shot items of the input and of 6 alternative continuations, empty span at None, rest re-lexes to the remaining items, chunked history reproduces the stream (same build); non-trivial = splits strictly inside an item/skip or where the partial lexer stopped before the split",
+        "C12" => "str-mode definitions compiled twice (utf8 default / utf8 = false) in one module, same valid UTF-8 input to both; oracle: Ok tokens with spans equal and the sets of bytes covered by errors equal (twin against twin); non-trivial = distinct (definition,input) with a multi-byte char inside or next to an error",
+        "C13" => "callbacks family: every pattern carries a callback (return type from the whole documented table, decision = pure function of salt and matched text, bump of 0-2 chars, 4 attachment forms, optional error callback, custom error type with From); oracle: model driven by the callback-free twin T0 (one unit variant per leaf) restarted after every item at the position the model computes, decisions applied per the documented table: items, spans, payloads, error codes, callback log (exactly one entry per winning match with span/slice of the match, bumped bytes) and error-callback log must be equal; plus the T1 twin where always-Skip callbacks are replaced by skip patterns; non-trivial = distinct (definition,input) with a non-Emit decision, a bump > 0, or a Skip followed by a restart",
         "C20" => "oracle on the read trace (hook): offsets non-decreasing per attempt, reads <= 4*(examined+1)+16, first read at the attempt start; non-trivial = attempts examining >= 16 bytes",
         _ => "",
     };
@@ -302,7 +478,7 @@ fn rule_for(prop: &str) -> String {
 }
 
 fn subject_replay(prop: &str, cfg: &BuildCfg, idx: usize, sd: &SubjectDef, rust: &str, input: &[u8], f: &[Finding]) -> Value {
-    json!({"property": prop, "tier": "X", "config": cfg.name(), "subject_index": idx, "family": sd.family, "skip_log": sd.skip_log,
+    json!({"property": prop, "tier": "X", "config": cfg.name(), "subject_index": idx, "family": sd.family, "skip_log": sd.skip_log, "has_value": sd.has_value, "error_cb": sd.error_cb,
            "def": sd.def, "rendered_rust": rust, "input_hex": hex(input), "input": show(input), "findings": f})
 }
 
